@@ -130,6 +130,9 @@ class Scn:
                         raise
                     except Exception as e:  # noqa: BLE001
                         w.log.append(("run-error", worlds._tid(), type(e).__name__, f"r{j}"))
+                post = getattr(self, "post_actor", None)
+                if post is not None:
+                    post(j, w, app)
             return f
 
         for j in range(n):
